@@ -18,6 +18,8 @@ Fixpoint fv_expr (e : expr) : list name :=
   | ECast e _ => fv_expr e
   | EField _ e => fv_expr e
   | ECall _ a => fv_args a
+  | ESlice l i j => fv_expr l ++ fv_expr i ++ fv_expr j
+  | EList e a => fv_expr e ++ fv_args a
   end
 with fv_args (a : args) : list name :=
   match a with ANil => [] | ACons e a' => fv_expr e ++ fv_args a' end.
@@ -54,6 +56,8 @@ Fixpoint gd_expr (e : expr) : bool :=
   | ECast e _ => gd_expr e
   | EField f e => gd_expr e && (if q_field_unimported Q then negb (priv_field M f) else true)
   | ECall _ a => gd_args a
+  | ESlice l i j => gd_expr l && gd_expr i && gd_expr j
+  | EList e a => gd_expr e && gd_args a
   end
 with gd_args (a : args) : bool :=
   match a with ANil => true | ACons e a' => gd_expr e && gd_args a' end.
@@ -65,11 +69,16 @@ Fixpoint gd_stmt (s : stmt) : bool :=
   | SVar _ _ x e => gd_expr e && (if q_tc_by_name Q then negb (mem x (fv_expr e)) else true)
   | SConst _ _ _ | SBreak | SContinue | SReturn None => true
   | SAssign _ e => gd_expr e
+  | SAssignIdx _ i e => gd_expr i && gd_expr e
+  | SAssignField f _ e => gd_expr e && (if q_field_unimported Q then negb (priv_field M f) else true)
   | SIf c th el => gd_expr c && gd_block th && gd_block el
   | SWhile c b => gd_expr c && gd_block b
   | SFor _ _ x f to st b =>
       gd_expr f && gd_expr to && gd_opt st && gd_block b &&
       (if q_void_eq Q then disjointb (fv_expr f ++ fv_expr to ++ fv_opt st) (x :: block_decls b) else true)
+  | SForEach _ _ _ e b => gd_expr e && gd_block b
+  | SRepeat b n => gd_block b && gd_expr n
+  | SDoWhile b c => gd_block b && gd_expr c
   | SReturn (Some e) => gd_expr e && (if q_void_ret Q then negb (callish e) else true)
   | SBlock b => gd_block b
   | SCall _ a => gd_args a
